@@ -16,6 +16,19 @@ def x_obligations(tier):
                          bound="5 entities (3 with data) in the memfs model; get twice: first call fixed, second call's attribute list (3) and sid_encode (3) chosen by the solver; compared with FindInPaths.find"))
         if tier == "thorough" or si in (0, 1, 4, 6, 8):
             o.append(Obl(f"C16-all[{s}]", M, "all_vs_find", env={"VF_SI": str(si)}, timeout=T, path_timeout=200, family="C16-all", bound="GetFromAll vs FindInAll, attribute list and encoder chosen by the solver"))
+    # a Getter of the NON-default path configuration reads that configuration's tree
+    for si in (0, 4, 7):
+        o.append(Obl(f"C16-get[{SEARCHES[si]},server]", M, "get_vs_find", env={"VF_SI": str(si), "VF_A1": "0", "VF_E1": "0", "VF_CONFIG": "server"}, timeout=T, path_timeout=200, family="C16-get",
+                     bound="as C16-get, on GetFromPaths('server') / FindInPaths('server') (the entities and their data live in the server tree only)"))
+    # miniB: one third-level type without Getter among siblings of the same depth that have one (as the shipped asset__assettype / shot__sequence)
+    ents = "m/p/x;m/c/r1;m/p/y;m/l/it/j;m/c/r1/01/s/u"
+    srch = "m/*/*;m/c,l/*;*/*/*;m/l/*/*;m/*"
+    for si in range(5):
+        if tier == "quick" and si in (3,):
+            continue
+        o.append(Obl(f"C16-all[miniB,{srch.split(';')[si]}]", M, "all_vs_find", env={"VF_CONF": "miniB", "VF_CONFIG": "main", "VF_SI": str(si), "VF_ENTITIES": ents, "VF_SEARCHES": srch, "VF_NOGETTER": "prj,pr,ct,l_ib,ct__reel",
+                                                                                       "VF_NOGETTER_SID": "m/c/r1", "VF_D0": "1", "VF_D1": "2", "VF_D2": "3"},
+                     timeout=T, path_timeout=200, family="C16-all", bound="miniB: GetFromAll vs FindInAll; a typed search without Getter sorts before typed searches with one"))
     o.append(Obl("C16-reach", M, "reach", timeout=100, expect="refute", family="C16-twin"))
     return o
 
